@@ -23,7 +23,7 @@ def build_case(ctx, rng, cid):
     d = ctx.casedir("case%05d" % cid)
     srcs, args = [], []
     for sid in range(n):
-        kind = rng.choice(["ok"] * 8 + ["empty", "notimestamps", "corruptgz", "missing"])
+        kind = rng.choice(["ok"] * 8 + ["empty", "notimestamps", "corruptgz", "missing", "emptyutmpgz", "truncutmpxz"])
         if kind == "ok":
             cnt = rng.choice([0, 1, 2, 4, 6, 7, 12, 30, 80])
             s = cases.make_source(rng, sid, cnt, t0, tz_min, mode=rng.choice(["ties", "dense", "subsec"]),
@@ -35,6 +35,11 @@ def build_case(ctx, rng, cid):
             args.append(("bad", gen.write(os.path.join(d, "e%d.log" % sid), b"")))
         elif kind == "notimestamps":
             args.append(("bad", gen.write(os.path.join(d, "n%d.log" % sid), b"no timestamp here\nnor here, really\n" * 5)))
+        elif kind == "emptyutmpgz":
+            # a compressed accounting file that decompresses to nothing
+            args.append(("bad", gen.write(os.path.join(d, "w%d.wtmp.gz" % sid), gen.gz_bytes(b""))))
+        elif kind == "truncutmpxz":
+            args.append(("bad", gen.write(os.path.join(d, "x%d.wtmp.xz" % sid), gen.xz_bytes(b"\x07" * 384)[:40])))
         elif kind == "corruptgz":
             args.append(("bad", gen.write(os.path.join(d, "c%d.log.gz" % sid), bytes(rng.randrange(256) for _ in range(300)))))
         else:
@@ -55,6 +60,9 @@ def schedules(rng, nsrc, k):
         plans.append("FileInfo:%d:0=200000" % a)
         # one worker stalls mid-stream, the others fill their channels
         plans.append("NewMessage:%d:%d=150000" % (a, rng.randint(0, 6)))
+    if nsrc >= 2 and rng.random() < 0.25:
+        # one worker silent for seconds while the others sit blocked on their full channels
+        plans.append("%s:%d:0=%d" % (rng.choice(["FileInfo", "NewMessage", "worker.start"]), rng.choice(ids), rng.choice([2300000, 3100000])))
     # printing thread slower than every worker: channels fill to capacity, senders block
     plans.append("coord.recv:-1:*=1500")
     plans.append("coord.print:-1:*=1000")
